@@ -1059,6 +1059,16 @@ pub fn synthetic_project(seed: u64) -> Project {
         extra_decls.push("export type UsesPkg = { id: PkgId; meta?: PkgMeta };".into());
         extra_keys.push("UsesPkg: UsesPkg".into());
     }
+    // ... and, in one such project of two (decided by the seed without a draw), a type of the package has the SAME
+    // NAME as a type of the project and both are requested: the emitted names carry the part of the two file paths
+    // that differs, so how a package file is spelled (link or real path) is in the output (seeded change c10l-2)
+    let pkg_clash = bare_pkg && seed.wrapping_mul(0xD6E8_FEB8_6659_FD93) >> 63 == 0;
+    if pkg_clash {
+        extra_decls.push("import { Receipt as PkgReceipt } from \"shared-types\";".into());
+        extra_decls.push("export type Receipt = { no: number; lines: string[] };\nexport type UsesReceipts = { mine: Receipt; theirs: PkgReceipt };".into());
+        extra_keys.push("UsesReceipts: UsesReceipts".into());
+        extra_keys.push("Receipt: Receipt".into());
+    }
     // a script file with global declarations, pulled in by a side-effect import that sits in
     // another module than the one that uses the globals
     let ambient = n_files >= 2 && rng.chance(1, 6);
@@ -1291,7 +1301,11 @@ pub fn synthetic_project(seed: u64) -> Project {
         files.insert("/p/pagelib.ts".into(), format!("// paging helpers\ntype PageCursorPrivate = {{ after: string }};\n/* {} */ export type Page<T, C = PageCursorPrivate> = {{ items: T[]; cursor?: C }};\n", "-".repeat(400)));
     }
     if bare_pkg {
-        files.insert("/p/node_modules/shared-types/index.ts".into(), "export type PkgId = string;\nexport type PkgMeta = { createdBy: PkgId; tags: string[] };\n".into());
+        let mut pkg_src = String::from("export type PkgId = string;\nexport type PkgMeta = { createdBy: PkgId; tags: string[] };\n");
+        if pkg_clash {
+            pkg_src.push_str("export type Receipt = { id: PkgId; paid: boolean };\n");
+        }
+        files.insert("/p/node_modules/shared-types/index.ts".into(), pkg_src);
     }
     Project {
         id: format!("syn_{:08x}", (seed & 0xffff_ffff) as u32),
